@@ -5,6 +5,7 @@ mod link;
 mod oracle;
 mod props;
 mod refcodec;
+mod solo;
 
 fn main() {
     let args: Vec<String> = std::env::args().collect();
